@@ -287,6 +287,37 @@ def limiter_cases(rnd, wd, tier):
     return out, n
 
 
+LIM_HEADER = """From Coq Require Import List Bool Arith.
+From HV Require Import FloatIO Limiter C08LimCorr.
+Import ListNotations.
+"""
+
+
+def limiter_model_cases(rnd, tier):
+    """call sequences on the real wrapper class against the counter machine of Model/Limiter.v"""
+    import hmclab
+    D = hmclab.Distributions
+    cases, metas = [], []
+    for k in range(60 if tier == "quick" else 600):
+        limit, gc, throw = rnd.choice([0, 1, 2, 3, 5, 8]), rnd.choice([1, 1, 2, 3]), rnd.random() < 0.85
+        ops = [rnd.random() < 0.4 for _ in range(rnd.randint(1, 25))]
+        obj = D.EvaluationLimiter_ClassConstructor(D.Normal, limit, gradient_count=gc, throw_interrupt=throw)(numpy.zeros((2, 1)), numpy.ones((2, 1)))
+        obs = []
+        x = numpy.array([[0.25], [-0.5]])
+        for g in ops:
+            raised = False
+            try:
+                (obj.gradient if g else obj.misfit)(x.copy())
+            except KeyboardInterrupt:
+                raised = True
+            obs.append((raised, int(obj.evaluations)))
+        cases.append("{| q_limit := %d%%nat; q_gcount := %d%%nat; q_throw := %s; q_ops := [%s]; q_obs := [%s] |}" % (
+            limit, gc, str(throw).lower(), "; ".join(str(g).lower() for g in ops), "; ".join(f"({str(r).lower()}, {n}%nat)" for r, n in obs)))
+        metas.append({"limit": limit, "gradient_count": gc, "throw_interrupt": throw, "ops": ["gradient" if g else "misfit" for g in ops], "observed": obs})
+    failing, errors = common.eval_cases("C08L", LIM_HEADER, cases, "lim_check", shard=300)
+    return [metas[j] for j in failing], errors, len(cases)
+
+
 def run(tier, seed):
     rnd = random.Random(seed * 7919 + 8)
     nruns = 14 if tier == "quick" else 120
@@ -337,6 +368,13 @@ def run(tier, seed):
             seen_keys.add(key)
     finally:
         shutil.rmtree(wd, ignore_errors=True)
+    lim_fail, lim_err, lim_cases = limiter_model_cases(rnd, tier)
+    dist["evaluation_limiter_call_sequences"] = lim_cases
+    for m in lim_fail[:3]:
+        violations.append(Violation("limiter-correspondence", f"EvaluationLimiter(limit={m['limit']}, gradient_count={m['gradient_count']}, throw_interrupt={m['throw_interrupt']}) on calls "
+                                    f"{m['ops']}: (raised, counter) per call is {m['observed']}, the counter machine of Model/Limiter.v disagrees", {"limiter_case": m, "no_failing_input_found": True}))
+    for k, log in lim_err:
+        violations.append(Violation("coq-error", "limiter shard failed: " + log[-300:], {"log": log, "no_failing_input_found": True}))
     failing, errors = common.eval_cases("C08", sr.HEADER, coq, "fc_check", shard=2)
     flagged = {common.case_hash(v.replay.get("case")) for v in violations
                if "case" in v.replay and not v.key.startswith("empty-file-unreadable")}
